@@ -130,6 +130,34 @@ func ZZ_C17_TCPTransparent() {
 	}
 }
 
+// A stream that looks like a TLS record with a large declared length (fifteen values
+// across the 16-bit range: powers of two and the TLS record limits, ±1) of which only the first bytes ever arrive before the deadline: what
+// the sniffer hands back for replay is exactly what it consumed - the five
+// header bytes and the body bytes that came - whatever the declared length.
+//
+//verif:harness kind=api unwind=128 bound=record-length∈{4,255..257,4095,4096,16383..16385,16640,18432,18433,32767,32768,65535}(powers-of-two-and-TLS-limits±1),body-arrived<=3B(symbolic),chunk∈{1,all}
+func ZZ_C17_TCPAnyRecordLength() {
+	body := verifChoice("bodyLen", 4)
+	sent := []byte{[]byte{0x16, 0x17}[verifChoice("type", 2)], 0x03, byte(verifChoice("minor", 4))}
+	// declared length: concrete per path (the engine forks on a symbolic allocation size anyway)
+	rl := []int{4, 255, 256, 257, 4095, 4096, 16383, 16384, 16385, 16640, 18432, 18433, 32767, 32768, 65535}[verifChoice("recordLen", 15)]
+	sent = append(sent, byte(rl>>8), byte(rl))
+	sent = append(sent, verifBytes("body", body)...)
+	st := &zzStream{data: sent, mode: []int{0, 2}[verifChoice("chunk", 2)], failAt: -1}
+	h := &Sniffer{}
+	addr := "10.0.0.1:443"
+	out, err := h.TCP(st, &addr)
+	verifAssert(err == nil, "sniffing never fails the flow")
+	verifAssert(len(out) == st.pos && st.pos == len(sent), "replayed bytes are exactly the bytes consumed from the stream")
+	d := byte(0)
+	for i := 0; i < len(out) && i < len(sent); i++ {
+		d |= out[i] ^ sent[i]
+	}
+	verifAssert(d == 0, "replayed bytes equal what the client sent, in order")
+	verifAssert(addr == "10.0.0.1:443", "an incomplete record changes nothing")
+	verifCover("incomplete-record")
+}
+
 // The first UDP packet is handed to the sniffer as the very slice that is
 // forwarded next: it must come back byte-identical.
 //
